@@ -136,7 +136,7 @@ func VerifC38Sequential() {
 	ls := NewLockSubsystem()
 	var model [2]c38Model
 	var created [2]bool
-	steps := nd.IntRange("steps", 1, nd.Bound(3, 4))
+	steps := nd.IntRange("steps", 1, 4)
 	for k := 0; k < steps; k++ {
 		tag := string(rune('0' + k))
 		who := nd.Pick("who"+tag, 2)
